@@ -179,10 +179,17 @@ func c11MapOrder(w *World, r *Report) {
 				if f, ok := p.TypesInfo.Defs[fd.Name].(*types.Func); ok {
 					names = w.OwnerNamesOf(f)
 				}
+				// a table built by a helper of the repository and ranged over at once reads like the local it replaced
+				alt := ""
+				if ce, isCall := ast.Unparen(rs.X).(*ast.CallExpr); isCall {
+					if f := calleeOf(p, ce); f != nil && w.InRepoObj(f) {
+						alt = "‹" + types.TypeString(t, func(pk *types.Package) string { return pk.Name() }) + "›"
+					}
+				}
 				var rev *mapRangeReview
 				for _, nm := range names {
 					for i := range c11MapRanges {
-						if rev == nil && c11MapRanges[i].Func == nm && c11MapRanges[i].Expr == norm {
+						if rev == nil && c11MapRanges[i].Func == nm && (c11MapRanges[i].Expr == norm || (alt != "" && c11MapRanges[i].Expr == alt)) {
 							rev = &c11MapRanges[i]
 						}
 					}
